@@ -45,12 +45,17 @@ func (t fasttime) reached() bool {
 
 // makeDeadline returns a time that is approximately time.Now().Add(d)
 func makeDeadline(d time.Duration) fasttime {
+	// clockEnd is read before current: the updater stops only once current has
+	// passed clockEnd, so a clockEnd that still covers 'end' below was written
+	// for a running updater, and the current read after it is not stale.
+	clockEnd := fast.clockEnd.read()
+
 	// Increase the deadline since the clock we are reading may be
 	// just about to tick forwards.
 	end := fast.current.read() + deadlineTicks(d)
 
 	// Start or extend clock if necessary.
-	if end > fast.clockEnd.read() {
+	if end > clockEnd {
 		// If time.Since(last use) > timeout, there's a chance that
 		// fast.current will no longer be updated, which can lead to
 		// incorrect 'end' calculations that can trigger a false timeout
@@ -58,9 +63,10 @@ func makeDeadline(d time.Duration) fasttime {
 		if !fast.running && !fast.start.IsZero() {
 			// update fast.current
 			fast.current.write(durationToTicks(time.Since(fast.start)))
-			// recalculate our end value
-			end = fast.current.read() + deadlineTicks(d)
 		}
+		// recalculate our end value: the time read above may have been stale
+		// even if another goroutine has restarted the clock since
+		end = fast.current.read() + deadlineTicks(d)
 		fast.mu.Unlock()
 		extendClock(end)
 	}
